@@ -155,6 +155,85 @@ theorem unwrap_range (d : Dbl) (n : Int) :
     · rintro ⟨h1, h2⟩; subst h2; exact ⟨rfl, h1⟩
     · rintro ⟨h1, h2⟩; subst h1; exact ⟨h2, rfl⟩
 
+/-! ## calls with more than two arguments -/
+
+/-- `(+ a b c ...)`, `(div a b c ...)`, ... with any mix of numbers / boxed integers / strings: the core function is the
+    left fold of the VM's binary opcode (number fast path or method dispatch at *every* step) over the arguments;
+    an error or undefined operation at one step is the result -/
+theorem varops_are_left_folds (c : Cfg) (N : NumOps) (x y : Val) (rest : List Val) :
+    ∀ p ∈ [("+", "binop", "+"), ("-", "binop", "-"), ("*", "binop", "*"), ("/", "binop", "/"), ("div", "divfloor", "div"),
+           ("mod", "modulo", "mod"), ("%", "remainder", "%"), ("band", "bitop", "&"), ("bor", "bitop", "|"), ("bxor", "bitop", "^"),
+           ("blshift", "bitop", "<<"), ("brshift", "bitop", ">>"), ("brushift", "bitopu", ">>")],
+      evalFn c N p.1 (x :: y :: rest) =
+        rest.foldl (fun acc z => acc.bind (fun a => vmOp c N p.2.1 p.2.2 a z)) (vmOp c N p.2.1 p.2.2 x y) :=
+  JanetModel.Int64.varops_are_left_folds c N x y rest
+
+/-- the looping methods called directly with n operands (`(:+ x b1 ... bn)`): the sum / product of all operands, reduced
+    mod 2^64 (stated for operands boxed in the receiver's kind) -/
+theorem nary_methods_wrap (k : Kind) (a : Int) (bs : List Int) :
+    (∃ r, methodLoop k (opMethod k "+") false a (bs.map (Val.box k)) = .ok r ∧ (bs = [] ∨ k.inRange r) ∧
+      BitVec.ofInt 64 r = BitVec.ofInt 64 (a + bs.sum)) ∧
+    (∃ r, methodLoop k (opMethod k "*") false a (bs.map (Val.box k)) = .ok r ∧
+      BitVec.ofInt 64 r = BitVec.ofInt 64 (bs.foldl (· * ·) a)) :=
+  ⟨methodLoop_add k a bs, methodLoop_mul k a bs⟩
+
+/-! ## the VM's 32-bit bitwise opcodes on plain numbers
+
+`bitop32` is `_vm_bitop`: left operand must pass `janet_checkintrange` (`janet_checkuintrange` for `brushift`), right operand
+`janet_checkintrange` (`checkIntRange_iff`: integer-valued double inside the 32-bit range; macro shapes asserted by the
+translator), then `bitop32Value`, then back to a double. -/
+
+theorem bitwise32_range_checks (d : Dbl) (n : Int) :
+    (checkIntRange d = some n ↔ d.toInt? = some n ∧ -two31 ≤ n ∧ n < two31) ∧
+    (checkUintRange d = some n ↔ d.toInt? = some n ∧ 0 ≤ n ∧ n < two32) := checkIntRange_iff d n
+
+/-- for in-range operands the result is the two's-complement `BitVec 32` operation (signed opcodes and `brushift` alike),
+    shifts for counts 0..31 -/
+theorem bitwise32_eq_bitvec (u : Bool) (x1 x2 : Int) :
+    (∃ r, bitop32Value u "&" x1 x2 = some r ∧ inRange32 u r ∧ BitVec.ofInt 32 r = BitVec.ofInt 32 x1 &&& BitVec.ofInt 32 x2) ∧
+    (∃ r, bitop32Value u "|" x1 x2 = some r ∧ inRange32 u r ∧ BitVec.ofInt 32 r = BitVec.ofInt 32 x1 ||| BitVec.ofInt 32 x2) ∧
+    (∃ r, bitop32Value u "^" x1 x2 = some r ∧ inRange32 u r ∧ BitVec.ofInt 32 r = BitVec.ofInt 32 x1 ^^^ BitVec.ofInt 32 x2) ∧
+    (0 ≤ x2 ∧ x2 < 32 →
+      (∃ r, bitop32Value u "<<" x1 x2 = some r ∧ inRange32 u r ∧ BitVec.ofInt 32 r = BitVec.ofInt 32 x1 <<< x2.toNat) ∧
+      (-two31 ≤ x1 ∧ x1 < two31 → bitop32Value false ">>" x1 x2 = some ((BitVec.ofInt 32 x1).sshiftRight x2.toNat).toInt) ∧
+      (0 ≤ x1 ∧ x1 < two32 → ∃ r, bitop32Value true ">>" x1 x2 = some r ∧ r = (((BitVec.ofInt 32 x1) >>> x2.toNat).toNat : Int))) :=
+  ⟨bitop32_and u x1 x2, bitop32_or u x1 x2, bitop32_xor u x1 x2,
+   fun h => ⟨bitop32_shl u x1 x2 h, fun h1 => bitop32_sar x1 x2 h1 h, fun h1 => bitop32_shr x1 x2 h1 h⟩⟩
+
+/-! ## plain numbers: `div`, `mod`, `%` (handlers `JOP_DIVIDE_FLOOR`, `JOP_MODULO`, `JOP_REMAINDER`; shapes asserted by the translator)
+
+IEEE arithmetic itself is abstract (`NumOps`); the assumptions are named: `FloorExact N` (libm `floor` returns the
+mathematical floor of a finite double) and `ExactAt f op a b` (operation `f` does not round at this input). -/
+
+theorem num_div_is_floor_of_quotient (N : NumOps) (hf : FloorExact N) (a b : Nat) :
+    numDivFloor N a b = N.floor (N.div a b) ∧
+    (FinBits (N.div a b) → valQ (numDivFloor N a b) = (⌊valQ (N.div a b)⌋ : ℚ)) ∧
+    (ExactAt N.div (· / ·) a b → valQ (numDivFloor N a b) = (⌊valQ a / valQ b⌋ : ℚ)) :=
+  ⟨rfl, (num_div_value N hf a b).1, (num_div_value N hf a b).2⟩
+
+theorem num_mod_zero_is_dividend (N : NumOps) (a b : Nat) (hz : isZeroBits b = true) : numModulo N a b = a :=
+  JanetModel.Int64.num_mod_zero_is_dividend N a b hz
+
+/-- `(mod a b)` = a - b⌊a/b⌋, in [0, b) for b > 0 and in (b, 0] for b < 0 (sign of the divisor) -/
+theorem num_mod_floor_convention (N : NumOps) (hf : FloorExact N) (a b : Nat) (hb : FinBits b) (hz : isZeroBits b = false)
+    (hd : ExactAt N.div (· / ·) a b) (hm : ExactAt N.mul (· * ·) b (N.floor (N.div a b)))
+    (hs : ExactAt N.sub (· - ·) a (N.mul b (N.floor (N.div a b)))) :
+    valQ (numModulo N a b) = valQ a - valQ b * (⌊valQ a / valQ b⌋ : ℚ) ∧
+    (0 < valQ b → 0 ≤ valQ (numModulo N a b) ∧ valQ (numModulo N a b) < valQ b) ∧
+    (valQ b < 0 → valQ b < valQ (numModulo N a b) ∧ valQ (numModulo N a b) ≤ 0) :=
+  num_mod_value N hf a b hb hz hd hm hs
+
+theorem num_rem_is_fmod (N : NumOps) (a b : Nat) : numRemainder N a b = N.fmod a b := rfl
+
+/-- the handlers are what the opcodes run on two numbers -/
+theorem vm_number_handlers (c : Cfg) (N : NumOps) (a b : Nat) :
+    vmOp c N "divfloor" "div" (.num a) (.num b) = .ok (.num (numDivFloor N a b)) ∧
+    vmOp c N "modulo" "mod" (.num a) (.num b) = .ok (.num (numModulo N a b)) ∧
+    vmOp c N "remainder" "%" (.num a) (.num b) = .ok (.num (numRemainder N a b)) ∧
+    vmOp c N "binop" "+" (.num a) (.num b) = .ok (.num (N.add a b)) ∧ vmOp c N "binop" "/" (.num a) (.num b) = .ok (.num (N.div a b)) ∧
+    vmOp c N "bitop" "&" (.num a) (.num b) = bitop32 false "&" a b ∧ vmOp c N "bitopu" ">>" (.num a) (.num b) = bitop32 true ">>" a b :=
+  ⟨rfl, rfl, rfl, rfl, rfl, rfl, rfl⟩
+
 /-! ## current tree (obligations over the regenerated `Gen/Int64.lean`) -/
 
 /-- ★ on the current source no 64-bit integer method performs an undefined C operation.
